@@ -185,6 +185,26 @@ func runC12Flow(rep *TReport, raw json.RawMessage) {
 	if !r.Accept && !ok {
 		rep.cmp(raw, "error_class", wantErr, o.Res, false)
 	}
+	// "tokens never carry ... an audience that was not granted": the same request under the JWT access-token strategy, with a
+	// resource owner who grants NONE of the requested audiences: the token's aud claim stays empty
+	if ok && !scopeDim && (r.Flow == "authorize_code" || r.Flow == "implicit" || r.Flow == "hybrid") {
+		jc := DefaultCfg()
+		jc.RScopes, jc.AT = []string{}, "jwt"
+		jw := NewWorld(jc)
+		jw.Rec.Keep = false
+		jw.Config.AudienceMatchingStrategy = w.Config.AudienceMatchingStrategy
+		jcl := jw.Mem.Clients[cname].(*fosite.DefaultClient)
+		jcl.Scopes, jcl.Audience = []string{"s"}, []string{reg}
+		rtype := map[string]string{"authorize_code": "code", "implicit": "token", "hybrid": "code_token"}[r.Flow]
+		jo := jw.Exec(1, Op{Op: "authorize", Client: cname, RType: rtype, Scopes: scopes, Grant: scopes, Aud: aud, GAud: []string{"-nothing-"}, Redir: "sent", Pkce: "none"})
+		if jo.Res == "ok" && jo.New["code"] > 0 {
+			jw.Exec(1, Op{Op: "redeem", Client: cname, Auth: "ok", Code: jo.New["code"], Redir: "same", Ver: "none"})
+		}
+		jat, _ := jw.Probe()
+		for _, ts := range jat {
+			rep.cmp(raw, "jwt_token_aud_when_none_granted", "", strings.Join(ts.Aud, " "), false)
+		}
+	}
 	if ok { // tokens never carry a scope or audience that was not granted
 		at, rt := w.Probe()
 		for _, ts := range append(at, rt...) {
